@@ -2,7 +2,7 @@ from ... import options as opts
 
 optimize_flags = {
     opts.OptimizeValue.disable : '-O0',
-    opts.OptimizeValue.size    : '-Osize',
+    opts.OptimizeValue.size    : '-Os',
     opts.OptimizeValue.speed   : '-O3',
     opts.OptimizeValue.linktime: '-flto',
 }
